@@ -1,6 +1,7 @@
 """C08 - parser lifecycle: always terminates cleanly; Escape key timing is exact."""
 import vselftest
 from checks import selfmut
+import concurrent.futures as cf
 import json
 import os
 import re
@@ -25,10 +26,30 @@ def delayed_past_end(desc):
     return False
 
 
+def cuts_scalar(chunks):
+    """A chunk of the scenario ends with the beginning of a multi-byte UTF-8 scalar (lead byte and fewer
+    continuation bytes than it announces): whoever reads whole scalars has to wait for the next chunk there."""
+    data, o = b"", 0
+    bounds = []
+    for ch in chunks:
+        data += bytes.fromhex(ch["Hex"])
+        bounds.append(len(data))
+    for x in bounds:
+        for j in range(max(0, x - 3), x):
+            b = data[j]
+            n = 2 if 0xC2 <= b <= 0xDF else 3 if 0xE0 <= b <= 0xEF else 4 if 0xF0 <= b <= 0xF4 else 1
+            if n > x - j and all(0x80 <= c <= 0xBF for c in data[j + 1:x]):
+                return True
+    return False
+
+
 def sig_of(rej, scn):
     why = rej.get("why")
     d = scn["desc"]
-    kind = "sched" if d.get("Sched") else "plain"
+    # backpressure: arrival times on the wire that do not wait for the parser + a consumer that takes its time
+    kind = "backpressure" if d.get("Wire") else "sched" if d.get("Sched") else "plain"
+    if cuts_scalar(d.get("Chunks") or []):
+        kind += "-cutscalar"
     if why == "timing":
         at = rej.get("at") or ["?", "?"]
         def t(x):
@@ -45,72 +66,107 @@ def main(c):
     drv = c.build()
     specs = c.stage_specs("parser")
     c.assumptions += [
+        "a silence that begins after some but not all bytes of a scalar have arrived is not a silence after a lone ESC (bytes did follow promptly)",
         "real-time constants: a long gap lasts until the ESC timer has actually expired (observed through the verif hook), a short gap is kept under 4 ms or the scenario's timing is not judged",
         "gate hooks (build tag verif) in ansi/parser.go are the linearisation points of ParserLife.tla",
         "a panic in a parser goroutine is observed as the death of the child process executing the scenario",
     ]
     sched_file = os.path.join(c.scratch, "sched.ndjson")
-    nsched = 0
-    with open(sched_file, "w") as out:
-        if not c.replay:
-            # 1. the model of the repaired code must satisfy the four properties exhaustively
-            ok, _ = c.model_check(specs, "MC_ParserLife.tla", "MC_ParserLife_fixed.cfg", workers=16)
-            if not ok:
-                c.notes.append("MODEL: ParserLife (repaired shape) violates a property in the bounded model - candidate, see TLC output")
-            # 2. the pre-repair shape: every property has a counterexample; each is a regression schedule
-            for inv in ("NoPanic", "NoStateClobber", "ExactlyOneEOFLast", "TimingExact"):
-                dump = os.path.join(c.scratch, "cex_%s.json" % inv)
-                ok, _ = c.model_check(specs, "MC_ParserLife.tla", "MC_ParserLife_code_%s.cfg" % inv, workers=1,
-                                      extra=("-dumpTrace", "json", dump), expect_violation=True)
-                if not ok and os.path.exists(dump):
-                    out.write(json.dumps(cex_to_sched(dump)) + "\n")
-                    nsched += 1
-            # 2a'. negative control of the repair's design: a callback that releases the mutex while it sends
-            #      (EmitUnlocked) is refuted; its counterexample is replayed as a schedule too
-            dump = os.path.join(c.scratch, "cex_emitunlocked.json")
-            ok, _ = c.model_check(specs, "MC_ParserLife.tla", "MC_ParserLife_emitunlocked.cfg", workers=1,
-                                  extra=("-dumpTrace", "json", dump), expect_violation=True)
-            c.cov["emit_unlocked_shape_refuted"] = not ok
-            if not ok and os.path.exists(dump):
-                out.write(json.dumps(cex_to_sched(dump)) + "\n")
-                nsched += 1
-            # 2b. the state-clobber interleaving made visible (needs four symbols): the callback of the first ESC
-            #     resets the state between "[" and "A" of the following sequence
-            out.write(json.dumps({
-                "inp": [{"c": 27, "gap": "short"}, {"c": 27, "gap": "long"}, {"c": 91, "gap": "short"}, {"c": 65, "gap": "short"}],
-                "eofGap": "short",
-                "acts": ["Deliver", "RTop", "RRead", "RLock", "RTop", "TFire:1", "Deliver", "RRead", "RLock", "RTop", "Deliver",
-                         "RRead", "RLock", "TSend:1", "TLock:1", "TSet:1", "RTop", "Deliver", "RRead", "RLock"]}) + "\n")
-            nsched += 1
-            # 2c. goal-directed schedules from the model of the repaired code with stalls (StallFire): shortest behaviours
-            #     in which a fired timer callback is still parked when the channel has been closed, after Close and after
-            #     end of input; on the real parser the callback is released last and must find nothing left to do
-            ok, _ = c.model_check(specs, "MC_ParserLife.tla", "MC_ParserLife_fixed_stall.cfg", workers=16)
-            if not ok:
-                c.notes.append("MODEL: ParserLife (repaired shape, stalls) violates a property in the bounded model - candidate")
-            for goal in ("GoalLateAfterClose", "GoalLateAfterEOF"):
-                dump = os.path.join(c.scratch, "goal_%s.json" % goal)
-                ok, _ = c.model_check(specs, "MC_ParserLife_Gen.tla", "MC_ParserLife_%s.cfg" % goal, workers=1,
-                                      extra=("-dumpTrace", "json", dump), expect_violation=True)
-                if not ok and os.path.exists(dump):
-                    last = json.load(open(dump))["counterexample"]["state"][-1][1]
-                    acts = list(last["hist"])
-                    for k, t in enumerate(last["tm"]):
-                        if t == "fired":
-                            acts += ["FLock:%d" % (k + 1), "FSet:%d" % (k + 1)]
-                    out.write(json.dumps({"inp": last["inp"], "eofGap": last["eofGap"], "acts": acts}) + "\n")
-                    nsched += 1
-            # 3. random behaviours of both shapes
-            walks = 150 if c.tier == "quick" else 2500
-            for cfg in ("MC_ParserLife_GenFixed.cfg", "MC_ParserLife_GenFixedStall.cfg", "MC_ParserLife_Gen.cfg"):
+    lines = []
+    if not c.replay:
+        # The TLC runs are independent of each other: a few run side by side, their results are used in a fixed order.
+        walks = 150 if c.tier == "quick" else 2500
+        jobs = {}
+
+        def mc(key, tla, cfg, **kw):
+            jobs[key] = lambda: c.model_check(specs, tla, cfg, **kw)
+
+        def dumped(key, tla, cfg):
+            dump = os.path.join(c.scratch, "dump_%s.json" % key)
+            jobs[key] = lambda: (c.model_check(specs, tla, cfg, workers=1, extra=("-dumpTrace", "json", dump),
+                                               expect_violation=True)[0], dump)
+
+        def sim(cfg):
+            def run():
                 md = os.path.join(c.scratch, "sim-" + cfg)
                 p = subprocess.run(["tlc", "-workers", "1", "-simulate", "num=%d" % walks, "-depth", "90", "-seed", str(c.seed),
                                     "-metadir", md, "-config", cfg, "MC_ParserLife_Gen.tla"],
                                    cwd=specs, capture_output=True, text=True, timeout=1500)
-                for line in p.stdout.splitlines():
-                    if line.startswith('"SCHED '):
-                        out.write(json.loads(line)[6:] + "\n")
-                        nsched += 1
+                return [json.loads(l)[6:] for l in p.stdout.splitlines() if l.startswith('"SCHED ')]
+            jobs["sim:" + cfg] = run
+
+        # 1. the model of the repaired code (callback under the mutex, timer stopped by the first byte that arrives) must
+        #    satisfy the four properties exhaustively, inputs with a two-byte scalar cut by a gap included
+        mc("fixed", "MC_ParserLife.tla", "MC_ParserLife_fixed.cfg", workers=8)
+        # 2. the pre-repair shape: every property has a counterexample; each is a regression schedule
+        invs = ("NoPanic", "NoStateClobber", "ExactlyOneEOFLast", "TimingExact")
+        for inv in invs:
+            dumped("code_" + inv, "MC_ParserLife.tla", "MC_ParserLife_code_%s.cfg" % inv)
+        # 2a'. negative control of the repair's design: a callback that releases the mutex while it sends
+        #      (EmitUnlocked) is refuted; its counterexample is replayed as a schedule too
+        dumped("emitunlocked", "MC_ParserLife.tla", "MC_ParserLife_emitunlocked.cfg")
+        # 2d. the shape in which the timer is stopped only once a whole scalar has been read (PeekStop = FALSE): an ESC
+        #     promptly followed by the first byte of a scalar whose rest arrives after a silence is reported as the key;
+        #     the counterexample is replayed (a code that stops the timer at the first byte does not let it fire: tolerated)
+        dumped("nopeek", "MC_ParserLife.tla", "MC_ParserLife_nopeek_TimingExact.cfg")
+        # 2e. the recorded finding as a shape: silence on the wire while the consumer holds the run loop up (WireGaps)
+        mc("wire", "MC_ParserLife.tla", "MC_ParserLife_wire_TimingExact.cfg", workers=4, expect_violation=True)
+        # 2c. goal-directed schedules from the model of the repaired code with stalls (StallFire): shortest behaviours
+        #     in which a fired timer callback is still parked when the channel has been closed, after Close and after
+        #     end of input; on the real parser the callback is released last and must find nothing left to do
+        mc("fixed_stall", "MC_ParserLife.tla", "MC_ParserLife_fixed_stall.cfg", workers=8)
+        goals = ("GoalLateAfterClose", "GoalLateAfterEOF")
+        for goal in goals:
+            dumped(goal, "MC_ParserLife_Gen.tla", "MC_ParserLife_%s.cfg" % goal)
+        # 3. random behaviours of both shapes
+        sims = ("MC_ParserLife_GenFixed.cfg", "MC_ParserLife_GenFixedStall.cfg", "MC_ParserLife_Gen.cfg")
+        for cfg in sims:
+            sim(cfg)
+        res = {}
+        with cf.ThreadPoolExecutor(max_workers=5) as ex:
+            futs = {k: ex.submit(f) for k, f in jobs.items()}
+            for k, f in futs.items():
+                res[k] = f.result()
+        c.cov["models"].sort(key=lambda m: m["cfg"])
+
+        if not res["fixed"][0]:
+            c.notes.append("MODEL: ParserLife (repaired shape) violates a property in the bounded model - candidate, see TLC output")
+        for key in ["code_" + i for i in invs] + ["emitunlocked", "nopeek"]:
+            ok, dump = res[key]
+            if key == "emitunlocked":
+                c.cov["emit_unlocked_shape_refuted"] = not ok
+            if key == "nopeek":
+                c.cov["late_timer_stop_shape_refuted"] = not ok
+            if not ok and os.path.exists(dump):
+                d = cex_to_sched(dump)
+                if key == "nopeek":
+                    d["tolerant"] = True
+                lines.append(json.dumps(d))
+        c.cov["wire_gaps_shape_refuted"] = not res["wire"][0]
+        # 2b. the state-clobber interleaving made visible (needs four symbols): the callback of the first ESC
+        #     resets the state between "[" and "A" of the following sequence
+        lines.append(json.dumps({
+            "inp": [{"c": 27, "gap": "short"}, {"c": 27, "gap": "long"}, {"c": 91, "gap": "short"}, {"c": 65, "gap": "short"}],
+            "eofGap": "short",
+            "acts": ["Deliver", "RTop", "RRead", "RLock", "RTop", "TFire:1", "Deliver", "RRead", "RLock", "RTop", "Deliver",
+                     "RRead", "RLock", "TSend:1", "TLock:1", "TSet:1", "RTop", "Deliver", "RRead", "RLock"]}))
+        if not res["fixed_stall"][0]:
+            c.notes.append("MODEL: ParserLife (repaired shape, stalls) violates a property in the bounded model - candidate")
+        for goal in goals:
+            ok, dump = res[goal]
+            if not ok and os.path.exists(dump):
+                last = json.load(open(dump))["counterexample"]["state"][-1][1]
+                acts = list(last["hist"])
+                for k, t in enumerate(last["tm"]):
+                    if t == "fired":
+                        acts += ["FLock:%d" % (k + 1), "FSet:%d" % (k + 1)]
+                lines.append(json.dumps({"inp": last["inp"], "eofGap": last["eofGap"], "acts": acts}))
+        for cfg in sims:
+            lines += res["sim:" + cfg]
+    with open(sched_file, "w") as out:
+        for l in lines:
+            out.write(l + "\n")
+    nsched = len(lines)
     c.cov["schedules_from_tlc"] = nsched
     td = c.drive(drv, "c08", replay=c.replay, extra=() if c.replay else ("-x", sched_file))
     rejects, _ = c.validate_traces(specs, "ParserLife_Trace.tla", "ParserLife_Trace.cfg", td)
@@ -131,6 +187,7 @@ def main(c):
     c.confirm(drv, "c08", specs, "ParserLife_Trace.tla", "ParserLife_Trace.cfg", cands, sig_of)
     return c.finish(
         rule="scenario = chunked input with short/long gaps x end (eof/read error, prompt or after silence) x consumer speed "
-             "(eager/slow/lazy, retaining or not) x Close point, or a gate schedule = one TLC behaviour of ParserLife "
+             "(eager/slow/lazy/stalled, retaining or not; paced beside wall-clock arrival times) x Close point, chunk boundaries "
+             "also inside multi-byte scalars, or a gate schedule = one TLC behaviour of ParserLife "
              "(counterexamples of the pre-repair shape + random walks of both shapes) replayed on the real parser; "
              "distinct = distinct descriptor")
